@@ -156,7 +156,7 @@ pub fn worker(args: &Args) {
     c03lab::worker(args, &|t, b, d| call_target(t, b, d, &lab));
 }
 
-pub const RULE: &str = "per parser target (HTTP request, HTTP response, ws frame decoder, ws Message::from_stream blocking and non-blocking over a loopback socket, JSON, config): all strings up to length 4 (5 thorough) over the target's protocol alphabet, alone and after valid-message contexts; every prefix of every seed message; structure-aware mutants (every number replaced by 0,1,2^31,2^32-1,2^63,2^64-1,1e14,+5,-1,...; CR/LF/colon/space/quote/brace removed or doubled; 2/3/4-byte UTF-8 scalars and invalid UTF-8 inserted/substituted at every position; ws length codes with boundary/huge extended lengths; nesting 10..200000); random bytes; reader-based targets delivered all-at-once and byte-by-byte. non-trivial = at least 2 bytes supplied; distinct = distinct (target, bytes, delivery)";
+pub const RULE: &str = "per parser target (HTTP request, HTTP response, ws frame decoder, ws Message::from_stream blocking and non-blocking over a loopback socket, JSON, config): all strings up to length 4 (5 thorough) over the target's protocol alphabet, alone and after valid-message contexts; every prefix of every seed message; structure-aware mutants (every number replaced by 0,1,2^31,2^32-1,2^63,2^64-1,1e14,+5,-1,...; CR/LF/colon/space/quote/brace removed or doubled; 2/3/4-byte UTF-8 scalars and invalid UTF-8 inserted/substituted at every position; ws length codes with boundary/huge extended lengths; nesting 10..200000; for the configuration parser also include files on disk: self-includes with fan-out 1..3, mutual cycles, a chain deeper than the nesting limit, 500 includes of a leaf); random bytes; reader-based targets delivered all-at-once and byte-by-byte. non-trivial = at least 2 bytes supplied; distinct = distinct (target, bytes, delivery)";
 
 pub const ASSUMPTIONS: [&str; 4] = [
             "isolation: one worker process per range of cases; death of a worker is attributed to the case it had announced",
